@@ -87,6 +87,11 @@ def r1(ctx, F, hub):
                 labs |= hub.label_operand(body, op_)
             in_graph = body.path in hub.graph
             ok = in_graph and labs <= {SAFE} and (labs or all(hub.path_class(body, op_) == 'staging' for op_ in ops_))
+            if not ok and in_graph and labs == {ROOT} and all(hub.from_walk(body, op_) for op_ in ops_):
+                # entries found by walking the served tree (a clean-up of leftovers): whether the walk can hand over the lock
+                # file depends on how the entries are filtered - data, not shape
+                ctx.undecided('C03.R1', '%s removes / renames entries it found by listing the served tree: that the lock file is never among them is not decided' % body.path.split('::{')[0])
+                continue
             ctx.check(ok, 'C03.R1', '%s:%s:request-path-only' % (body.path.split('::{')[0].replace('serve::', '').replace(' ', '_'), callee(rt_).split('::')[-1]),
                       'removes/renames only request paths (through safe_join) and their staging files',
                       'serve.rs removes or renames a path that is not a request path or its staging file (labels %s%s): if this is the commit lock file, '
@@ -250,53 +255,76 @@ def r3_r5(ctx, F, hub):
             for l_ in {a0['p']['l']} | ({cr_[0]} if cr_ else set()):
                 absent_e |= fl.outcomes(None, l_).get('None', set())
         for name, field, val, verb in (('PutResult', 'committed', 1, 'rename'), ('DeleteResult', 'deleted', 1, 'remove_file')):
-            for bi in cfg.reachable():
-                for st in b.blocks[bi]['stmts']:
-                    rv = st['rv']
-                    if rv['k'] == 'agg' and rv.get('adt') == 'wire::Response' and rv.get('vname') == name:
-                        i = rv['fields'].index(field)
-                        if rv['ops'][i]['k'] == 'const' and rv['ops'][i].get('v') == val:
-                            ok_e = set()
-                            for mb, mt in muts:
-                                if callee(mt).endswith(verb) and not (verb == 'remove_file' and hub.path_class(b, mt['args'][0]) != 'live'):
-                                    ok_e |= fl.outcomes(mb).get('Ok', set())
-                            allowed = ok_e | (absent_e if name == 'DeleteResult' else set())
-                            if not (allowed and cfg.edges_guard(allowed, bi)):
-                                ctx.bad('C03.R5', '%s:%s-without-%s' % (handler, field, verb),
-                                        '%s{%s:true} is reachable without a successful %s' % (name, field, verb), loc(b, st['line']))
+            for bi, line in reply_sites(b, fl, name, field, val):
+                ok_e = set()
+                for mb, mt in muts:
+                    if callee(mt).endswith(verb) and not (verb == 'remove_file' and hub.path_class(b, mt['args'][0]) != 'live'):
+                        ok_e |= fl.outcomes(mb).get('Ok', set())
+                allowed = ok_e | (absent_e if name == 'DeleteResult' else set())
+                if not (allowed and cfg.edges_guard(allowed, bi)):
+                    ctx.bad('C03.R5', '%s:%s-without-%s' % (handler, field, verb),
+                            '%s{%s:true} is reachable without a successful %s' % (name, field, verb), loc(b, line))
+
+
+def reply_sites(b, fl, name, field, val):
+    """[(block, line)] where the reply Response::<name>{<field>: <val>} becomes the value that is handed on: the block that
+    builds it when it is built straight into the returned / written value, otherwise the blocks that move a value built
+    earlier (`let ack = Response::..; .. ; |()| ack`) into a return carrier."""
+    built = {}
+    for bi in fl.cfg.reachable():
+        for st in b.blocks[bi]['stmts']:
+            rv = st['rv']
+            if rv['k'] == 'agg' and rv.get('adt') == 'wire::Response' and rv.get('vname') == name and bi not in fl.exclude_blocks:
+                i = rv['fields'].index(field)
+                fv = rv['ops'][i].get('v') if rv['ops'][i]['k'] == 'const' else None
+                if fv is None and rv['ops'][i]['k'] != 'const':
+                    os_ = [o for o in fl.origins(rv['ops'][i]) if o.kind != 'comb']
+                    if os_ and all(o.kind == 'const' for o in os_) and len({o.key for o in os_}) == 1:
+                        fv = os_[0].key
+                if fv is not None and int(bool(fv)) == val:
+                    built[bi] = (st, st['dst']['l'])
+    if not built:
+        return []
+    carriers = return_carriers(b)
+    out = []
+    late = False
+    for bi, (st, d) in built.items():
+        if d in carriers or not any(True for _ in [0]) :
+            out.append((bi, st.get('line')))
+    direct = {bi for bi, _ in out}
+    for bi in fl.cfg.reachable():
+        for st in b.blocks[bi]['stmts']:
+            if st['dst']['l'] in carriers and not st['dst']['proj'] and st['rv']['k'] == 'use' and st['rv']['ops'][0]['k'] != 'const':
+                os_ = fl.origins(st['rv']['ops'][0])
+                if any(o.kind == 'agg' and o.bb in built and o.bb not in direct and str(o.key).endswith('::' + name) for o in os_):
+                    out.append((bi, st.get('line')))
+                    late = True
+    if not out:
+        # built into something that is neither returned nor moved on by plain copies: judge it where it is built (as before)
+        out = [(bi, st.get('line')) for bi, (st, d) in built.items()]
+    return out
 
 
 def reply_rule(ctx, b, fl, op_bb, name, field, val, key):
-    """C03.R5: Response::<name>{<field>: <val>} is built only under the Ok edge of the operation in op_bb."""
+    """C03.R5: Response::<name>{<field>: <val>} is handed on only under the Ok edge of the operation in op_bb."""
     cfg = fl.cfg
     found = False
-    for bi in cfg.reachable():
-        for st in b.blocks[bi]['stmts']:
-            rv = st['rv']
-            if rv['k'] == 'agg' and rv.get('adt') == 'wire::Response' and rv.get('vname') == name:
-                i = rv['fields'].index(field)
-                if bi in fl.exclude_blocks:
-                    continue
-                fv = rv['ops'][i].get('v') if rv['ops'][i]['k'] == 'const' else None
-                if fv is None:
-                    cs = {o.key for o in fl.origins(rv['ops'][i]) if o.kind != 'comb'} if rv['ops'][i]['k'] != 'const' else set()
-                    kinds = {o.kind for o in fl.origins(rv['ops'][i]) if o.kind != 'comb'} if rv['ops'][i]['k'] != 'const' else set()
-                    if kinds == {'const'} and len(cs) == 1:
-                        fv = list(cs)[0]
-                if fv is not None and int(bool(fv)) == val and cfg.can_reach(op_bb, bi):
-                    found = True
-                    # once the operation has run, the success reply must be unreachable from its Err outcome (a path that
-                    # legitimately skips the operation - nothing to delete - is judged by the absent-edge rule below)
-                    oc_ = fl.outcomes(op_bb)
-                    err_reach = set()
-                    for (s_, t_, lab_) in oc_.get('Err', set()):
-                        err_reach |= cfg.reach(t_)
-                    inspected = bool(oc_.get('Err')) and bool(oc_.get('Ok'))
-                    ctx.check(fl.guarded_by(bi, op_bb, 'Ok') or (inspected and bi not in err_reach), 'C03.R5', key, '%s{%s:%s} only under the Ok edge of the file operation' % (name, field, bool(val)),
-                              'the reply %s{%s:%s} is sent although the %s it reports may have failed (its result is discarded)' % (
-                                  name, field, str(bool(val)).lower(), callee(b.blocks[op_bb]['term']).split('::')[-1]), loc(b, st['line']))
+    for bi, line in reply_sites(b, fl, name, field, val):
+        if not cfg.can_reach(op_bb, bi):
+            continue
+        found = True
+        # once the operation has run, the success reply must be unreachable from its Err outcome (a path that
+        # legitimately skips the operation - nothing to delete - is judged by the absent-edge rule below)
+        oc_ = fl.outcomes(op_bb)
+        err_reach = set()
+        for e_ in oc_.get('Err', set()):
+            err_reach |= cfg.feasible_after_edge(e_)
+        inspected = bool(oc_.get('Err')) and bool(oc_.get('Ok'))
+        ctx.check(fl.guarded_by(bi, op_bb, 'Ok') or (inspected and bi not in err_reach), 'C03.R5', key, '%s{%s:%s} only under the Ok edge of the file operation' % (name, field, bool(val)),
+                  'the reply %s{%s:%s} is sent although the %s it reports may have failed (its result is discarded)' % (
+                      name, field, str(bool(val)).lower(), callee(b.blocks[op_bb]['term']).split('::')[-1]), loc(b, line))
     if not found:
-        ctx.bad('C03.R5', key + ':reply-exists', 'no %s{%s:%s} reply follows the operation' % (name, field, bool(val)), term_loc(b, op_bb))
+        ctx.undecided('C03.R5', '%s: no %s{%s:%s} reply was found behind the operation (the reply is built in a way the rule does not follow)' % (key, name, field, bool(val)))
 
 
 def r4(ctx, F):
